@@ -29,6 +29,23 @@ int_elem!(u8, 8);
 int_elem!(u16, 16);
 int_elem!(u32, 32);
 int_elem!(u64, 64);
+impl Elem for f32 {
+    const BITS: u32 = 32;
+    const SIZE: usize = 4;
+    fn from_nat(v: u128) -> Self {
+        f32::from_bits(v as u32)
+    }
+    fn to_nat(&self) -> u128 {
+        canon_f32(*self) as u128
+    }
+}
+
+/// Bit pattern with every NaN mapped to the canonical quiet NaN (payloads and
+/// signs of NaN results depend on operand order chosen by the compiler).
+pub fn canon_f32(x: f32) -> u32 {
+    if x.is_nan() { 0x7fc0_0000 } else { x.to_bits() }
+}
+
 impl Elem for Complex {
     const BITS: u32 = 64;
     const SIZE: usize = 8;
@@ -36,7 +53,7 @@ impl Elem for Complex {
         Complex::new(f32::from_bits(v as u32), f32::from_bits((v >> 32) as u32))
     }
     fn to_nat(&self) -> u128 {
-        (self.re.to_bits() as u128) | ((self.im.to_bits() as u128) << 32)
+        (canon_f32(self.re) as u128) | ((canon_f32(self.im) as u128) << 32)
     }
 }
 impl Elem for [u8; 16] {
